@@ -119,3 +119,35 @@ Example ex_canon :
   hget (s_handles (t_s _ ex_stA)) 13 <> hget (s_handles (t_s _ ex_stA)) 14 /\
   hget (s_handles (t_s _ ex_stA)) 15 = None /\ hget (s_handles (t_s _ ex_stA)) 3 = None.
 Proof. vm_compute. repeat split; auto. discriminate. Qed.
+
+(** * Bundles for the property files *)
+
+Example ex_t3_two_functions : td_ok_b ex_t3 = true /\ td_vtable ex_t3 (RN 2) <> td_vtable ex_t3 (RN 1).
+Proof. split; [vm_compute; reflexivity | vm_compute; discriminate]. Qed.
+
+Example ex_c01 :
+  (td_ok_b ex_t3 = true /\ td_vtable ex_t3 (RN 2) <> td_vtable ex_t3 (RN 1)) /\
+  hget (s_handles (t_s _ ex_stA)) 8 = hget (s_handles (t_s _ ex_stA)) 6 /\
+  hget (s_handles (t_s _ ex_stA)) 7 = hget (s_handles (t_s _ ex_stA)) 6 /\
+  hget (s_handles (t_s _ ex_stA)) 13 <> hget (s_handles (t_s _ ex_stA)) 14.
+Proof.
+  exact (conj ex_t3_two_functions (conj (proj1 ex_canon) (conj (proj1 (proj2 ex_canon)) (proj1 (proj2 (proj2 ex_canon)))))).
+Qed.
+
+(** the hypotheses of the step theorem hold in the state after the history *)
+Example ex_inv : TInv acache ac_get ex_stA /\ TInv unit nc_get ex_stB.
+Proof. exact (conj (proj1 ex_sim) (proj1 (proj2 ex_sim))). Qed.
+
+(** every constructor occurs in the history *)
+Example ex_ops_cover :
+  existsb (fun o => match o with TConst _ _ => true | _ => false end) ex_ops
+  && existsb (fun o => match o with TVar _ _ => true | _ => false end) ex_ops
+  && existsb (fun o => match o with TNot _ _ => true | _ => false end) ex_ops
+  && existsb (fun o => match o with TBin _ _ _ _ => true | _ => false end) ex_ops
+  && existsb (fun o => match o with TIte _ _ _ _ => true | _ => false end) ex_ops
+  && existsb (fun o => match o with TCof _ _ _ _ => true | _ => false end) ex_ops
+  && existsb (fun o => match o with TClone _ _ => true | _ => false end) ex_ops
+  && existsb (fun o => match o with TDrop _ => true | _ => false end) ex_ops
+  && existsb (fun o => match o with TGc => true | _ => false end) ex_ops
+  && existsb (fun o => match o with TAddVars _ => true | _ => false end) ex_ops = true.
+Proof. vm_compute. reflexivity. Qed.
